@@ -147,10 +147,13 @@ func Harness_C08_History() {
 
 func Selftest_C08_Vectors() {
 	t := GetCodonTable(11).OptimizeTable("ATGGCTgctGCTtaaNNN-x")
-	for _, aa := range t.AminoAcids {
-		if aa.Letter == "A" || aa.Letter == "M" || aa.Letter == "*" {
-			for _, c := range aa.Codons {
-				vOut(aa.Letter + c.Triplet + string(rune('0'+c.Weight)))
+	// the order of amino acids follows Go's map iteration order: print in a fixed order
+	for _, l := range []string{"A", "M", "*"} {
+		for _, aa := range t.AminoAcids {
+			if aa.Letter == l {
+				for _, c := range aa.Codons {
+					vOut(aa.Letter + c.Triplet + string(rune('0'+c.Weight)))
+				}
 			}
 		}
 	}
